@@ -142,6 +142,23 @@ def run(chk, prop):
                 chk.count("kind_" + er["kind"])
                 if er["path"]:
                     chk.count("errors_below_root")
+    # short-lived schemas: the same kinds of (schema, value) pairs again, each schema built afresh,
+    # used once and dropped (the cache above keeps every schema alive, so object identities are
+    # never reused there; here they are, as in code that declares schemas inline)
+    recent = [e for e in events if e["s"]["t"] in ("str", "list", "dict", "any", "int", "float")]
+    picks = chk.rng.sample(recent, min(len(recent), 400 if quick else 4000))
+    for e in picks:
+        try:
+            temp = am.g_schema(e["s"])
+            v_real = am.g_value(e["v"])
+        except Exception:
+            continue
+        ev = valgen.observe_validate(temp, v_real)
+        ev.update({"id": len(events) + 1, "s": e["s"], "v": e["v"], "srepr": safe_repr(temp)[:300],
+                   "vrepr": safe_repr(v_real)[:200]})
+        del temp
+        events.append(ev)
+        chk.count("short_lived_schema_pairs")
     # code -> spec, beyond the exhaustive universe: random schemas nested deeper, probed
     # around the values the real generator produces for them under the constant tapes
     from . import deep
